@@ -3,11 +3,12 @@ from stack import FULL_STACK, FULL_DEPS, QUIC_STACK, QUIC_DEPS, WT_STACK, WT_DEP
 
 SPEC = dict(
     pkg="./harness/c10",
-    instrument=FULL_STACK + QUIC_STACK + WT_STACK + ["./p2p/net/conngater"],
+    instrument=FULL_STACK + QUIC_STACK + WT_STACK + ["./p2p/net/conngater", "./p2p/protocol/circuitv2/relay",
+                "./p2p/protocol/circuitv2/client", "./p2p/protocol/circuitv2/util"],
     deps=FULL_DEPS + QUIC_DEPS + WT_DEPS,
     level="exploration",
     level_text=("seeded search over histories of Block*/Unblock* calls on the real BasicConnectionGater (peer, address in 4- and "
-                "16-byte form, canonical IPv4/IPv6 subnets incl. the IPv4-mapped spelling), each optionally cut by a process stop "
+                "16-byte form, IPv4/IPv6 subnets in canonical and non-canonical spellings: host bits set, IPv4-mapped, mixed byte lengths), each optionally cut by a process stop "
                 "right after its datastore mutation or failed by a datastore I/O error, clean restarts and failing loads, "
                 "interleaved (stratum full-stack) with rounds of concurrent dials in both directions between three real nodes on "
                 "simnet whose IP addresses sit on the first/last/just-outside addresses of the blocked subnets (IPv4, IPv6, "
@@ -32,7 +33,9 @@ SPEC = dict(
                "lock-level scheduling; direct hook sweep over address forms"),
     design_ref="DESIGN.md section 6 (C10)",
     quick_s=50, thorough_s=600,
-    rule=("one run = one tape: stratum hooks-direct (1/7) | full-stack over TCP (3/7) | full-stack with QUIC+WebTransport (3/7: per dial "
+    rule=("one run = one tape: stratum hooks-direct (1/8) | full-stack over TCP (3/8) | full-stack-relay (1/8: basic hosts, Q = real "
+          "circuit-v2 relay, P holds a reservation, G has the real client transport; half of G's dials of P know the relayed address "
+          "only; connections kept across steps in 5/8 of the rounds) | full-stack with QUIC+WebTransport (3/8: per dial "
           "a non-empty subset of {QUIC, WebTransport, TCP} address kinds (uniform over the 7 subsets), subsets of the QUIC and "
           "WebTransport address forms, UDP faults in 2/5 of the runs: "
           "loss 0|3|12|30 %, duplication 0|5 %, latencies none|<=15 ms|<=400 ms, stopped before the final round; hole-punch rounds (weight 3 of 15 steps): G punches towards P|Q in the server role through "
@@ -46,7 +49,9 @@ SPEC = dict(
           "the three load queries first. non-trivial = at least one Block was acknowledged and at least one oracle evaluation "
           "with a definite expectation followed; distinct = distinct (stratum, security, hosts, sequence of calls with outcomes, "
           "rounds with dial results and connection counts) x schedule hash"),
-    probes=["stratum-full-stack", "stratum-hooks-direct", "stratum-full-stack-quic", "backoff-kept", "peerstore-addrs-kept", "punch-round", "punch-with-twin", "punch-succeeded", "punched-conn-handed-out",
+    probes=["stratum-full-stack", "stratum-hooks-direct", "stratum-full-stack-quic", "stratum-full-stack-relay", "dial-with-circuit-addr",
+            "circuit-addr-reached-transport", "refused-AddrDial-circuit", "circuit-conn-admitted-outbound", "circuit-Secured-outbound",
+            "subnet-call-non-canonical-spelling", "backoff-kept", "peerstore-addrs-kept", "punch-round", "punch-with-twin", "punch-succeeded", "punched-conn-handed-out",
             "punch-returned-conn-direct", "rule-change-mid-punch", "punch-round-with-blocked-dialler", "punch-delay-0s",
             "punch-delay-50ms", "punch-delay-1s", "punch-delay-4.9s",
             "G-knows-quic", "G-knows-webtransport", "G-knows-tcp", "G-knows-quic+webtransport", "G-knows-quic+tcp",
@@ -77,9 +82,10 @@ SPEC = dict(
           "swarm (dialPeer, addrsForDial incl. DNS resolution step, filterKnownUndialables, dial worker, addConn, notifications)",
           "tcp transport dial path (WithDialerForAddr)", "upgrader + gated listener (InterceptAccept, InterceptSecured call sites)",
           "noise, tls", "multistream-select", "yamux", "pstoremem", "eventbus",
+          "circuit-v2 relay service, circuit client transport, basic host + identify (stratum full-stack-relay)",
           "p2p/transport/quic (listener.Accept gating incl. the hole-punch hand-off, transport.dial gating, transport.holePunch in the server role), quicreuse, quic-go (stratum full-stack-quic)",
           "p2p/transport/webtransport (httpHandler InterceptAccept, InterceptSecured after the Noise handshake, dial path), cert manager, quic-go/http3, webtransport-go (stratum full-stack-quic)"],
-    stubs=["wire: simnet TCP model", "wire: simnet UDP model (drawn loss / duplication / latency per datagram) + a recording filter that spots G's client Initial packets",
+    stubs=["wire: simnet TCP model", "a stub transport on G that claims /p2p-circuit addresses and fails every dial at once (all full-stack strata except full-stack-relay): observation point for addresses handed to a transport's Dial", "wire: simnet UDP model (drawn loss / duplication / latency per datagram) + a recording filter that spots G's client Initial packets",
            "crypto/rand: simrand (seeded) in the QUIC stratum", "disk: simdisk wrapper around MapDatastore (process stop after a mutation, I/O error on an operation)",
            "DNS: fake MultiaddrDNSResolver mapping p.test/q.test to the hosts' IPs (dns6 of an IPv4 host yields the IPv4-mapped form)",
            "a delegating recorder around the real gater (counts refusals, compares each live answer with the model)",
